@@ -190,6 +190,24 @@ func (t refTrigger) holdsASCIIOnly(out string) (holds, excluded bool) {
 	return pos && !excluded, excluded
 }
 
+func edgeSpace(s string) bool {
+	return s != "" && strings.TrimSpace(s) != s
+}
+
+// holdsTrimmed is NOT part of the oracle: it says what the verdict would be if the literal texts
+// were compared without their leading/trailing white space (evidence: boundaries at which exactly
+// that white space decided).
+func (t refTrigger) holdsTrimmed(out string) bool {
+	u := t
+	if x := strings.TrimSpace(t.contains); x != "" {
+		u.contains = x
+	}
+	if x := strings.TrimSpace(t.notContains); x != "" {
+		u.notContains = x
+	}
+	return u.holds(out)
+}
+
 func nonASCII(s string) bool {
 	for i := 0; i < len(s); i++ {
 		if s[i] >= 0x80 {
@@ -437,6 +455,14 @@ func runOnce(d Desc) (mon.Result, bool) {
 			break
 		}
 	}
+	for _, cb := range d.CBs {
+		if edgeSpace(cb.Contains) {
+			j.obs["literals_with_edge_whitespace"]++
+		}
+		if edgeSpace(cb.NotContains) {
+			j.obs["literals_with_edge_whitespace"]++
+		}
+	}
 	rounds := d.Rounds
 	if rounds < 1 || d.Input == "" {
 		rounds = 1
@@ -553,6 +579,8 @@ type evalRes struct {
 	suppressed bool // some callback's positive part held but its not-contains text was present
 	// evidence only: the verdict of some callback would differ if only A-Z were lower-cased
 	caseMappingDecided, vetoNeedsMapping, splitLetter bool
+	// evidence only: the verdict of some callback would differ if literal texts were trimmed
+	edgeSpaceDecided bool
 }
 
 func (j *judge) eval(a, k int) evalRes {
@@ -568,6 +596,9 @@ func (j *judge) eval(a, k int) evalRes {
 			if t.positive(out) && t.excluded(out) && !x {
 				r.vetoNeedsMapping = true
 			}
+		}
+		if (edgeSpace(t.contains) || edgeSpace(t.notContains)) && t.holdsTrimmed(out) != t.holds(out) {
+			r.edgeSpaceDecided = true
 		}
 		if t.positive(out) {
 			if t.excluded(out) {
@@ -617,6 +648,11 @@ func (j *judge) noteEval(r evalRes) {
 	}
 	if r.splitLetter {
 		j.obs["boundaries_inside_a_multibyte_letter"]++
+	}
+	if r.edgeSpaceDecided {
+		j.obs["boundaries_where_a_literals_edge_whitespace_decided"]++
+		j.tags["edge-whitespace-of-a-literal-decided-a-trigger"] = true
+		j.nontrivial = true
 	}
 	if r.suppressed {
 		j.obs["boundaries_where_not_contains_suppressed"]++
@@ -741,6 +777,10 @@ func (j *judge) judge(haveResp bool, result string, opErr error) mon.Result {
 		}
 		fired[f.Idx]++
 		j.noteFired(cb, e2 == e && fi > 0)
+		if edgeSpace(cb.Contains) || edgeSpace(cb.NotContains) {
+			j.obs["firings_of_literals_with_edge_whitespace"]++
+			j.tags["fired:literal-with-edge-whitespace"] = true
+		}
 		if cb.nonASCIITrigger() {
 			j.obs["firings_of_insensitive_non_ascii_triggers"]++
 			if h, _ := j.trigs[f.Idx].holdsASCIIOnly(out); !h {
